@@ -244,9 +244,14 @@ def run(ctx):
             if res is None:
                 continue
             sid = c0 + ci
-            if res.get("hang") or "crash" in res or "exception" in res:
-                ctx.violation("engine-failure:" + case["option"], "the engine hung / crashed / raised on a valid script: %s" %
-                              (res.get("exception") or res.get("crash") or "hang"), small(case))
+            if res.get("hang"):
+                # non-termination is C10's property; here the run is only counted (nothing to check step by step)
+                ctx.count("engine_hang_skipped")
+                ctx.notes.append("a run did not finish within the time-out and was skipped (%s)" % case["option"])
+                continue
+            if "crash" in res or "exception" in res:
+                ctx.violation("engine-failure:" + case["option"], "the engine crashed / raised on a valid script: %s" %
+                              (res.get("exception") or res.get("crash")), small(case))
                 continue
             arr = res["arr"]
             rates = stoch_gen.Rates(arr, edge=case["edge"])
